@@ -2,6 +2,7 @@ package mon
 
 import (
 	"bytes"
+	"encoding/binary"
 	"encoding/json"
 	"fmt"
 	"go/ast"
@@ -463,6 +464,42 @@ func c20registry() []c20entry {
 			hx, err4 := wkb.MarshalToHex(g)
 			return []interface{}{b, sv(err), buf.Bytes(), sv(err2), v, sv(err3), hx, sv(err4), wkb.MustMarshal(g), wkb.MustMarshalToHex(g)}
 		}})
+	// one encoder of each package for the whole run, reconfigured between and within calls the way its API allows:
+	// whatever came before, Encode gives what Marshal gives for the configuration now in force
+	{
+		var lbuf bytes.Buffer
+		lw, le := wkb.NewEncoder(&lbuf), ewkb.NewEncoder(&lbuf)
+		n := 0
+		add(c20entry{name: "long-lived wkb/ewkb Encoder, reconfigured between calls", readOnly: true,
+			call: func(g orb.Geometry) interface{} {
+				n++
+				order := []binary.ByteOrder{binary.LittleEndian, binary.BigEndian}[n%2]
+				lbuf.Reset()
+				e1 := lw.SetByteOrder(order).Encode(g)
+				a := append([]byte{}, lbuf.Bytes()...)
+				lbuf.Reset()
+				le.SetByteOrder(order).SetSRID(4326)
+				e2 := le.Encode(g, 3857) // an SRID for this call only
+				bOver := append([]byte{}, lbuf.Bytes()...)
+				lbuf.Reset()
+				e3 := le.Encode(g)
+				bPlain := append([]byte{}, lbuf.Bytes()...)
+				return []interface{}{a, sv(e1), bOver, sv(e2), bPlain, sv(e3), n % 2}
+			},
+			typed: func(g orb.Geometry) (interface{}, bool) {
+				order := []binary.ByteOrder{binary.LittleEndian, binary.BigEndian}[n%2]
+				a, e1 := wkb.Marshal(g, order)
+				bOver, e2 := ewkb.Marshal(g, 3857, order)
+				bPlain, e3 := ewkb.Marshal(g, 4326, order)
+				norm := func(b []byte) []byte {
+					if b == nil {
+						return []byte{}
+					}
+					return b
+				}
+				return []interface{}{norm(a), sv(e1), norm(bOver), sv(e2), norm(bPlain), sv(e3), n % 2}, true
+			}})
+	}
 	add(c20entry{name: "ewkb.Marshal/Encoder/Value", covers: []string{"ewkb.Marshal", "ewkb.MustMarshal", "ewkb.MarshalToHex", "ewkb.MustMarshalToHex", "ewkb.Value", "ewkb.ValuePrefixSRID", "ewkb.(Encoder).Encode"}, readOnly: true,
 		call: func(g orb.Geometry) interface{} {
 			b, err := ewkb.Marshal(g, 4326)
